@@ -45,7 +45,7 @@ def run_stream(st, tier, seed, judge):
     tot = dict(n=0, nontrivial=0, distinct_nontrivial=0, mismatches=0, bad=0)
     per = {}
     with cf.ThreadPoolExecutor(max_workers=NCPU) as ex:
-        for r in ex.map(lambda c: uvlib.run_pipe(c, judge, st.get('timeout', 1500), st.get('judge_args', ())), jobs):
+        for r in ex.map(lambda c: uvlib.run_pipe(c, judge, st.get('timeout', 5400), st.get('judge_args', ())), jobs):
             if r['crash']:
                 out['crashes'].append(r['crash'])
             if r['summary']:
@@ -98,8 +98,8 @@ def run_pair_stream(st, tier, seed, judge):
         res = {'mism': [], 'n': 0, 'nt': 0, 'samples': [], 'crash': None, 'keys': set(), 'jm': []}
         try:
             with tempfile.TemporaryFile(dir=uvlib.BUILD) as e1, tempfile.TemporaryFile(dir=uvlib.BUILD) as e2:
-                p1 = subprocess.run([ref] + args, stdout=subprocess.PIPE, stderr=e1, timeout=st.get('timeout', 1500))
-                p2 = subprocess.run([alt] + args, stdout=subprocess.PIPE, stderr=e2, timeout=st.get('timeout', 1500))
+                p1 = subprocess.run([ref] + args, stdout=subprocess.PIPE, stderr=e1, timeout=st.get('timeout', 5400))
+                p2 = subprocess.run([alt] + args, stdout=subprocess.PIPE, stderr=e2, timeout=st.get('timeout', 5400))
         except subprocess.TimeoutExpired:
             res['crash'] = 'timeout: ' + ' '.join(args)
             return res
@@ -129,7 +129,7 @@ def run_pair_stream(st, tier, seed, judge):
             if len(res['samples']) < 2 and res['n'] % 1000 == 1:
                 res['samples'].append('%s  ||  %s' % (a, fb[4]))
         if st.get('judge_ref'):
-            pj = subprocess.run([judge, '--samples', '0'], input='\n'.join(l1) + '\n', stdout=subprocess.PIPE, text=True, timeout=st.get('timeout', 1500))
+            pj = subprocess.run([judge, '--samples', '0'], input='\n'.join(l1) + '\n', stdout=subprocess.PIPE, text=True, timeout=st.get('timeout', 5400))
             for line in pj.stdout.splitlines():
                 if line.startswith('M '):
                     body, model = line[2:].rsplit(' => ', 1)
@@ -180,7 +180,7 @@ def run_selfcheck_stream(st, tier, seed, judge):
             with tempfile.TemporaryFile(dir=uvlib.BUILD) as e1:
                 env = dict(os.environ, ASAN_OPTIONS='detect_leaks=0:handle_segv=0:handle_sigfpe=0:handle_abort=0', UBSAN_OPTIONS='print_stacktrace=0:halt_on_error=0',
                            TSAN_OPTIONS='halt_on_error=0')
-                p = subprocess.run(cmd, stdout=subprocess.PIPE, stderr=e1, timeout=st.get('timeout', 1500), env=env)
+                p = subprocess.run(cmd, stdout=subprocess.PIPE, stderr=e1, timeout=st.get('timeout', 5400), env=env)
                 if st.get('stderr_rx'):
                     import re
                     e1.seek(0); err = e1.read().decode(errors='replace')
@@ -610,7 +610,7 @@ PLANS = {
             {'name': 'posit_fast_vs_generic_rnd', 'kind': 'pair', 'driver': 'posit_fastset_generic', 'driver2': 'posit_fastset_fast', 'compare': cmp_same,
              'judge_ref': True, 'what': 'fast vs generic, structured sampling on 16_1 16_2 32_2',
              'runs': {'quick': [dict(args=['--mode', 'rnd', '--group', 'all1', '--count', '3000'], shards=3)],
-                      'thorough': [dict(args=['--mode', 'rnd', '--group', 'all1', '--count', '100000'], shards=3)]}},
+                      'thorough': [dict(args=['--mode', 'rnd', '--group', 'all1', '--count', '40000'], shards=3)]}},
         ] + [
             {'name': 'capi_pure_%s' % g, 'kind': 'pair', 'driver': 'capi_gen1', 'driver2': 'capi_pure', 'compare': cmp_same, 'judge_ref': True,
              'what': 'pure C posit8 / posit8_1 library (c_api/pure_c, posit_8_0.h, posit_8_1.h) vs generic posit<8,0> / posit<8,1>, every operand (pair), group ' + g,
